@@ -32,7 +32,15 @@ def canonical_form(self, expression):
             return numerator
         if numerator == denominator:
             return One()
-        return numerator / denominator
+        # ... and on the QUOTIENT as well: dividing by a fraction multiplies out (a / (1/c) is built as (a*c)/1, a / (a*b/b) as (a*b)/(a*b)),
+        # so without this a second canonicalisation would still reduce the result
+        quotient = numerator / denominator
+        if isinstance(quotient, Fraction):
+            if isinstance(quotient.denominator, One):
+                return quotient.numerator
+            if quotient.numerator == quotient.denominator:
+                return One()
+        return quotient
     elif isinstance(expression, One | Zero):
         return expression
     else:
